@@ -319,7 +319,7 @@ def work(ctx, tier):
             if k < 1 and ctx.shard == 0:
                 ctx.sample({"direct_history": {"max_retries": mx, "window_s": w, "ops": [list(o) for o in ops[:25]]}})
         ctx.cnt["clock_reads"] += world.hits["mono"]
-    m = (1500 if tier == "quick" else 50000) // ctx.nshards
+    m = (6000 if tier == "quick" else 100000) // ctx.nshards
     for k in range(m):
         spec = gen_shared(rng)
         run_shared(ctx, spec, rng, viol)
